@@ -100,6 +100,32 @@ theorem C10_compare_wrapper (a b : SV) : SV.compareScalarValues a b = SV.compare
   unfold SV.compareScalarValues SV.compare
   cases a.asU64 <;> cases b.asU64 <;> rfl
 
+/-- **u64 sort keys are ordered as natural numbers, over the full range.**  A u64 field reaches
+the comparators as `Int64` (up to `i64::MAX`) or as `Utf8(decimal digits)` (above: there is no
+Int64 form, `ScalarValue::from(json)` and the segment reader both produce the string).  For any
+two values that read as u64 the comparison used by every sort and every merger
+(`compare_scalar_values`, equal to `compare` by `C10_compare_wrapper`) is `Nat` order of the
+readings — in particular NOT the text order of the digit strings — and it is a total preorder
+on such a column, so `C10_merge_topk` applies to u64 columns with no bound on the values. -/
+theorem C10_u64_order_is_numeric (a b : SV) (x y : Nat) (ha : a.asU64 = some x) (hb : b.asU64 = some y) :
+    SV.compareScalarValues a b = compare x y ∧ SV.compare a b = compare x y := by
+  rw [C10_compare_wrapper]
+  exact ⟨compare_of_asU64 a b x y ha hb, compare_of_asU64 a b x y ha hb⟩
+
+theorem C10_compare_preorder_u64 : TPO SV.compare (fun v => ∃ u, v.asU64 = some u) :=
+  compare_tpo_u64
+
+/-- Non-vacuity, and why text order is not an implementation of it: 10^19 against 2^63 (both
+above i64::MAX, 20 and 19 digits) compare Greater as u64 keys, while their digit strings compare
+Less bytewise; a small Int64 key against a 20-digit key goes through the same branch. -/
+example :
+    SV.compare (.utf8 [49,48,48,48,48,48,48,48,48,48,48,48,48,48,48,48,48,48,48,48])
+               (.utf8 [57,50,50,51,51,55,50,48,51,54,56,53,52,55,55,53,56,48,56]) = .gt ∧
+    cmpBytes [49,48,48,48,48,48,48,48,48,48,48,48,48,48,48,48,48,48,48,48]
+             [57,50,50,51,51,55,50,48,51,54,56,53,52,55,55,53,56,48,56] = .lt ∧
+    SV.compare (.int 17) (.utf8 [49,48,48,48,48,48,48,48,48,48,48,48,48,48,48,48,48,48,48,48]) = .lt := by
+  decide
+
 /-- Non-vacuity: a column with a missing key, negative and positive integers. -/
 example : InCol .int .null ∧ InCol .int (.int (-3)) ∧ InCol .int (.int 7) ∧
     SV.compare (.int (-3)) (.int 7) = .lt ∧ SV.compare .null (.int (-3)) = .lt := by
